@@ -324,20 +324,28 @@ impl<S: VersionStorer> Backend<S> {
                         )
                         .await;
 
-                    // The document may have been edited (or closed) while the fetch was
-                    // running: re-check the text it has now, not the one this task started with
-                    let current = documents
+                    // Re-check every open document the fetch can affect: this document, with the
+                    // text it has NOW (it may have been edited or closed while the fetch was
+                    // running), and any other open document of the same registry that uses a
+                    // fetched package (its own fetch was skipped because the package was already
+                    // being fetched here, so nobody else would re-check it)
+                    let affected: Vec<(Url, String)> = documents
                         .read()
                         .expect("documents lock poisoned")
-                        .get(&uri)
-                        .map(|doc| doc.content.clone());
-                    let Some(content) = current else {
-                        return;
-                    };
+                        .iter()
+                        .filter(|(doc_uri, doc)| {
+                            **doc_uri == uri
+                                || (detect_parser_type(doc_uri.as_str()) == Some(registry_type)
+                                    && doc.packages.iter().any(|p| fetched.contains(&p.name)))
+                        })
+                        .map(|(doc_uri, doc)| (doc_uri.clone(), doc.content.clone()))
+                        .collect();
 
-                    let diagnostics = generate_diagnostics(&*parser, &*matcher, &*storer, &content);
-
-                    client.publish_diagnostics(uri, diagnostics, None).await;
+                    for (doc_uri, content) in affected {
+                        let diagnostics =
+                            generate_diagnostics(&*parser, &*matcher, &*storer, &content);
+                        client.publish_diagnostics(doc_uri, diagnostics, None).await;
+                    }
                 }
             });
         }
